@@ -12,7 +12,7 @@ import glob, json, os, subprocess, sys
 
 ROOT = os.path.dirname(os.path.dirname(os.path.abspath(__file__)))
 wave, scratch = int(sys.argv[1]), sys.argv[2]
-ordinal = {2: "SECOND", 3: "THIRD", 4: "FOURTH", 5: "FIFTH", 6: "SIXTH", 7: "SEVENTH", 8: "EIGHTH"}.get(wave, str(wave) + "th")
+ordinal = {2: "SECOND", 3: "THIRD", 4: "FOURTH", 5: "FIFTH", 6: "SIXTH", 7: "SEVENTH", 8: "EIGHTH", 9: "NINTH"}.get(wave, str(wave) + "th")
 
 used = {}
 for mp in sorted(glob.glob(os.path.join(ROOT, "seeded", "*", "meta.json"))):
@@ -34,6 +34,9 @@ FLAVOURS_BY_WAVE = {
  8: """- A: TWO LIVE OBJECTS: the defect needs two objects that are alive at the same time and whose uses are interleaved - two iterators over one container, an iterator and an enumerable call, two containers of the same kind (or a container and one built from its JSON, or a result and its operand), the same container reached through two interfaces. Each object used on its own, from creation to the end, behaves perfectly; only the interleaving of calls on both shows the defect. (Stay within the property: no iterator kept across a mutation of its container.)
 - B: AN EXACT COINCIDENCE in internal arithmetic or structure: the defect shows only when two quantities that are usually different happen to be equal or adjacent - an index equal to size-1 while the capacity equals the size, start == end after a whole number of wraps, a node holding exactly the minimum number of keys next to a sibling holding exactly one more, a removal that empties a leaf which is also the right-most child, the new key equal to the current minimum or maximum, an even versus an odd order or length, a count that is exactly a power of two. Off by one in exactly one such configuration, right everywhere else.
 - C: your most devious idea for this property - something you believe even a careful reviewer and extensive automated randomized testing would probably still miss, while a user could realistically hit it. The earlier rounds already covered: comparators with large or extreme results, NaN and -0.0, named and zero-size and pointer and very wide element types, key types with String or UnmarshalText methods, sizes in the tens of thousands, hash collisions, package-level caches and pools, position hints that survive a mutation, containers reset and re-used, containers produced by other operations, damage left by failing calls, arguments that repeat members or hand the container's own Values() back, the library's own TimeComparator. Find something none of these would reach.""",
+ 9: """- A: A PARTICULAR ORDER OF AT LEAST FOUR CALLS of at least three different kinds (for example a bulk insertion, then a lookup, then a removal at a particular place, then an enumeration): every shorter sequence, and the same calls in another order, behave correctly. Say in notes.md why each of the calls is needed.
+- B: CONFIGURATION TIMES STATE: the defect needs a particular configuration chosen at construction (a B-tree order, a ring capacity, a comparator with a particular property such as many equal keys or a reversed order, an element type of a particular size or kind, initial values passed to the constructor versus added later) combined with a particular state reached later; with the usual configuration, or in other states, everything is right.
+- C: your most devious idea for this property - something you believe even a careful reviewer and extensive automated randomized testing would probably still miss, while a user could realistically hit it within seconds of running time (not after billions of operations). The earlier rounds already covered: comparators with large or extreme results, NaN and -0.0, named and zero-size and pointer and very wide element types, key types with String or UnmarshalText methods, integer types at the ends of their ranges, sizes in the tens of thousands, lifetime counters in the thousands, hash collisions, package-level caches and pools, build constraints, position hints that survive a mutation, containers reset and re-used, containers produced by other operations, damage left by failing calls, arguments that repeat members or hand the container's own Values() back, two objects sharing a cursor or storage, the library's own TimeComparator. Find something none of these would reach.""",
 }
 FLAVOURS = FLAVOURS_BY_WAVE.get(wave, FLAVOURS_BY_WAVE[6])
 
